@@ -526,12 +526,13 @@ M('C02', 'magnitude_bins fills a missing start by truthiness', 'C02-D5.magbins',
 E('C02', 'magnitude_bins fills a missing start after a None test',
   (REG, _MB_OLD, 'def magnitude_bins(start_magnitude=None, end_magnitude=None, dmw=None):'),
   (REG, '    return cleaner_range(start_magnitude, end_magnitude, dmw)', '    if start_magnitude is None:\n        start_magnitude = 2.5\n    return cleaner_range(start_magnitude, end_magnitude, dmw)'))
-_RS_OLD = '                # the region carries no magnitude bins: use default magnitude bins from csep\n                mag_bins = CSEP_MW_BINS\n                self.region.magnitudes = mag_bins\n                self.region.num_mag_bins = len(mag_bins)\n'
+_RS_OLD = '                # the region carries no magnitude bins: use default magnitude bins from csep\n                mag_bins = CSEP_MW_BINS\n                if self.region is not None:\n                    self.region.magnitudes = mag_bins\n                    self.region.num_mag_bins = len(mag_bins)\n'
 for _p in ('C02', 'C03'):
     M(_p, 'explicit magnitude bins written into the shared region', 'C03-D6.local',
       (CAT, _RS_OLD, '                # the region carries no magnitude bins: use default magnitude bins from csep\n                mag_bins = CSEP_MW_BINS\n        if self.region is not None:\n            self.region.magnitudes = mag_bins\n            self.region.num_mag_bins = len(mag_bins)\n'))
-E('C03', 'default bins bound to the region in a nested None branch',
-  (CAT, _RS_OLD, '                # the region carries no magnitude bins: use default magnitude bins from csep\n                mag_bins = CSEP_MW_BINS\n                if self.region is not None:\n                    self.region.magnitudes = mag_bins\n                    self.region.num_mag_bins = len(mag_bins)\n'))
+for _p in ('C02', 'C03', 'C10'):
+    M(_p, 'repair 8dc3645 undone: default bins stored on a region that may be None', 'G-BELIEF',
+      (CAT, _RS_OLD, '                # the region carries no magnitude bins: use default magnitude bins from csep\n                mag_bins = CSEP_MW_BINS\n                self.region.magnitudes = mag_bins\n                self.region.num_mag_bins = len(mag_bins)\n'))
 M('C03', 'located points remembered on the quadtree class', 'C03-D6.lookup',
   (REG, "    def _find_location(self, lon, lat):", "    _seen = {}\n\n    def _find_location(self, lon, lat):"),
   (REG, "        loc = numpy.logical_and(numpy.logical_and(lon >= self.bounds[:, 0], lat >= self.bounds[:, 1]),", "        if (lon, lat) in self._seen:\n            return self._seen[(lon, lat)]\n        self._seen[(lon, lat)] = numpy.array([], dtype=int)\n        loc = numpy.logical_and(numpy.logical_and(lon >= self.bounds[:, 0], lat >= self.bounds[:, 1]),"))
@@ -656,3 +657,73 @@ M('C03', 'filter threshold as a numpy double', 'C04-D1', (CAT, "                
 for _p in ('C10', 'C13'):
     M(_p, 'spatial counts through a buffered increment', 'C03-D2', (CAT, '        numpy.add.at(event_counts, idx, 1)\n        return event_counts', '        event_counts[idx] += 1\n        return event_counts'))
 M('C13', 'inclusive filter operators with a tolerance', 'C04-D1', (CAT, "                     '>=': operator.ge,", "                     '>=': lambda x, b: (x > b) | numpy.isclose(x, b),"))
+
+# ------------------------------------------------------------------------------------------------ round 8 rules (degenerate members)
+_ER_LOOP = '                cat.region = self.region\n                gridded_counts = cat.spatial_magnitude_counts()\n'
+for _p in ('C13', 'C20'):
+    M(_p, 'empty synthetic catalogs skipped before the accumulator exists', 'C13-D7.everycat',
+      (FOR, _ER_LOOP, '                cat.region = self.region\n                if cat.event_count == 0:\n                    continue\n                gridded_counts = cat.spatial_magnitude_counts()\n'))
+E('C13', 'skipped flag computed but every catalog gridded',
+  (FOR, _ER_LOOP, '                cat.region = self.region\n                nothing = cat.event_count == 0\n                gridded_counts = cat.spatial_magnitude_counts()\n'))
+M('C08', 'tie test through the smallest gap of the sorted ranks', 'C08-D5.defined',
+  (POI, '    _, repcounts = numpy.unique(r, return_counts=True)\n    repnum = repcounts[repcounts > 1]\n    if repnum.size != 0:\n',
+   '    _, repcounts = numpy.unique(r, return_counts=True)\n    repnum = repcounts[repcounts > 1]\n    if numpy.diff(numpy.sort(r)).min() == 0:\n'))
+E('C08', 'tie test through the smallest gap, guarded by the sample size',
+  (POI, '    _, repcounts = numpy.unique(r, return_counts=True)\n    repnum = repcounts[repcounts > 1]\n    if repnum.size != 0:\n',
+   '    _, repcounts = numpy.unique(r, return_counts=True)\n    repnum = repcounts[repcounts > 1]\n    if r.size > 1 and numpy.diff(numpy.sort(r)).min() == 0:\n'))
+E('C20', 'gaps of the sorted ranks are order-free',
+  (POI, '    _, repcounts = numpy.unique(r, return_counts=True)\n    repnum = repcounts[repcounts > 1]\n    if repnum.size != 0:\n',
+   '    _, repcounts = numpy.unique(r, return_counts=True)\n    repnum = repcounts[repcounts > 1]\n    if r.size > 1 and numpy.diff(numpy.sort(r)).min() == 0:\n'))
+M('C09', 'a zero observation taken for a missing one', 'C09-D3.nopair',
+  (STA, '    # delta 1 prob of observation at least n_obs events given the forecast\n', '    if not obs_count or len(sim_counts) == 0:\n        return None, None\n    # delta 1 prob of observation at least n_obs events given the forecast\n'))
+E('C09', 'no scores for an empty sample only',
+  (STA, '    # delta 1 prob of observation at least n_obs events given the forecast\n', '    if len(sim_counts) == 0:\n        return None, None\n    # delta 1 prob of observation at least n_obs events given the forecast\n'))
+M('C09', 'shortcut for a value on the maximum', 'C09-D2.ret',
+  (STA, '    if val < ex[0]:\n        return 1.0\n    return eyc[numpy.searchsorted(ex, val)]', '    if val < ex[0]:\n        return 1.0\n    if val == ex[-1]:\n        return eyc[-1]\n    return eyc[numpy.searchsorted(ex, val)]'))
+M('C14', 'catalog id written only when truthy', 'C14-D7.todf', (CAT, "        df['catalog_id'] = self.catalog_id\n", "        if self.catalog_id:\n            df['catalog_id'] = self.catalog_id\n"))
+E('C14', 'catalog id written unless it is None... and otherwise as None', (CAT, "        df['catalog_id'] = self.catalog_id\n", "        if self.catalog_id is not None:\n            df['catalog_id'] = self.catalog_id\n        else:\n            df['catalog_id'] = None\n"))
+M('C14', 'write_ascii leaves before opening the file', 'C14-D1.created',
+  (CAT, "        if append:\n            write_string = 'a'\n", "        if not write_header and self.event_count == 0:\n            return\n        if append:\n            write_string = 'a'\n"))
+M('C14', 'reader folds longitudes onto [-180, 180)', 'C14-D1.read', (RDR, "            lon = float(line[0])\n            lat = float(line[1])\n            magnitude = float(line[2])\n            # maybe fractional",
+                                                                  "            lon = float(line[0])\n            if lon >= 180.0:\n                lon -= 360.0\n            lat = float(line[1])\n            magnitude = float(line[2])\n            # maybe fractional"))
+_GI = '            for i in range(len(lons)):\n                idx = numpy.append(idx, self._find_location(lons[i], lats[i]))\n'
+for _p in ('C17', 'C03'):
+    M(_p, 'located index kept only when truthy', 'C17-D4.keep',
+      (REG, _GI, '            for i in range(len(lons)):\n                loc = self._find_location(lons[i], lats[i])\n                if numpy.any(loc) or numpy.size(loc) == 0:\n                    idx = numpy.append(idx, loc)\n'))
+M('C17', 'longitudes folded before the lookup', 'C17-D4.asgiven',
+  (REG, '            idx = numpy.array([])\n            for i in range(len(lons)):', '            lons = numpy.where(numpy.asarray(lons) >= 180., numpy.asarray(lons) - 360., lons)\n            idx = numpy.array([])\n            for i in range(len(lons)):'))
+E('C17', 'coordinates converted to arrays before the lookup',
+  (REG, '            idx = numpy.array([])\n            for i in range(len(lons)):', '            lons = numpy.asarray(lons)\n            lats = numpy.asarray(lats)\n            idx = numpy.array([])\n            for i in range(len(lons)):'))
+M('C17', 'threshold defaulted by truthiness', 'C17-D3.asked',
+  (REG, '        lon = catalog.get_longitudes()\n        lat = catalog.get_latitudes()\n\n        qk = []\n        num = []\n\n        _create_tile(', '        lon = catalog.get_longitudes()\n        lat = catalog.get_latitudes()\n        threshold = threshold or 1\n\n        qk = []\n        num = []\n\n        _create_tile('))
+for _p in ('C17', 'C03', 'C01'):
+    M(_p, 'repair c6d93d0 undone: index list becomes an array only inside the loop', 'G-EMPTYLOOP', (REG, '            idx = numpy.array([])\n            for i in range(len(lons)):', '            idx = []\n            for i in range(len(lons)):'))
+M('C19', 'repair 806673d undone: optional event_id column read unconditionally', 'C19-D2.optional', (RDR, "            event_id = line[6] if len(line) > 6 else ''\n", "            event_id = line[6]\n"))
+E('C19', 'optional event_id column read under try', (RDR, "            event_id = line[6] if len(line) > 6 else ''\n", "            try:\n                event_id = line[6]\n            except IndexError:\n                event_id = ''\n"))
+M('C18', 'one-element distribution written as a scalar', 'C18-D2.write',
+  (MOD, "        try:\n            td_list = self.test_distribution.tolist()\n        except AttributeError:\n            td_list = list(self.test_distribution)\n",
+   "        if numpy.size(self.test_distribution) == 1:\n            td_list = numpy.asarray(self.test_distribution).item()\n        else:\n            td_list = list(self.test_distribution)\n"))
+M('C18', 'decoded statistic replaced when falsy', 'C18-D1.asloaded',
+  (INI, "    eval_result = evaluation_result_factory[evaluation_type].from_dict(\n        json_dict)", "    json_dict['min_mw'] = float(json_dict['min_mw']) if json_dict.get('min_mw') else None\n    eval_result = evaluation_result_factory[evaluation_type].from_dict(\n        json_dict)"))
+M('C11', 'rates table read without ndmin', 'C11-D8.rank',
+  (RDR, "    rates = data[1:, 3:]\n    rates = rates.astype(float)\n", "    rates = numpy.loadtxt(csv_fname, delimiter=',', skiprows=1, usecols=range(3, data.shape[1]))\n"))
+E('C11', 'rates table read with ndmin=2',
+  (RDR, "    rates = data[1:, 3:]\n    rates = rates.astype(float)\n", "    rates = numpy.loadtxt(csv_fname, delimiter=',', skiprows=1, usecols=range(3, data.shape[1]), ndmin=2)\n"))
+M('C06', 'prescribed number of active cells capped inside the simulator', 'C06-D7.prescribed',
+  (BIN, '        num_active_cells = 0\n        while num_active_cells < sim_cells:', '        sim_cells = min(sim_cells, numpy.count_nonzero(numpy.diff(sampling_weights)))\n        num_active_cells = 0\n        while num_active_cells < sim_cells:'))
+M('C06', 'observed number and Poisson draw swapped in a conditional expression', 'C06-D7.count',
+  (POI, '        if use_observed_counts:\n            num_events_to_simulate = int(n_obs)\n        else:\n            num_events_to_simulate = int(\n                numpy.random.poisson(expected_forecast_count))\n',
+   '        num_events_to_simulate = int(numpy.random.poisson(expected_forecast_count)) if use_observed_counts else int(n_obs)\n'))
+E('C06', 'number of events chosen by a conditional expression',
+  (POI, '        if use_observed_counts:\n            num_events_to_simulate = int(n_obs)\n        else:\n            num_events_to_simulate = int(\n                numpy.random.poisson(expected_forecast_count))\n',
+   '        num_events_to_simulate = int(n_obs) if use_observed_counts else int(numpy.random.poisson(expected_forecast_count))\n'))
+M('C02', 'index converted to integers before the range tests', 'C02-D3.castlast',
+  (CALC, '    idx = numpy.asarray(idx)  # assure idx is an array\n', '    idx = numpy.asarray(idx).astype(numpy.int64)\n'))
+M('C02', 'decimals of start counted without the trailing zero', 'C02-D5.tenths',
+  (CALC, "    num_decimals_bins = len(str(float(start)).split('.')[1])", "    num_decimals_bins = len(numpy.format_float_positional(float(start), trim='-').partition('.')[2])"))
+E('C02', 'decimals of start counted from repr', (CALC, "    num_decimals_bins = len(str(float(start)).split('.')[1])", "    num_decimals_bins = len(repr(float(start)).partition('.')[2])"))
+M('C01', 'cells ranked among the occurring coordinates', 'C01-D5',
+  (REG, '        idx = bin1d_vec(midpoints[:, 0], xs)\n        idy = bin1d_vec(midpoints[:, 1], ys)\n', '        idx = numpy.unique(nd_origins[:, 0], return_inverse=True)[1]\n        idy = numpy.unique(nd_origins[:, 1], return_inverse=True)[1]\n'))
+M('C20', 'active bins counted as non-zero positions', 'C08-D3', (BIN, '    N = len(np.unique(np.nonzero(catalog.spatial_magnitude_counts().ravel())))', '    N = np.count_nonzero(np.unique(np.nonzero(catalog.spatial_magnitude_counts().ravel())))'))
+M('C13', 'loader yields nothing for a file without records', 'C12-D2',
+  (CAT, '                # yield final catalog, note: since this is just loading catalogs, it has no idea how many should be there\n', '                if prev_id is None:\n                    return\n                # yield final catalog, note: since this is just loading catalogs, it has no idea how many should be there\n'))
